@@ -101,12 +101,16 @@ structure Cfg where
   res : Bool := false
   /-- a `leptos_server::OnceResource`: one future, no sources, no refetch, no manual write -/
   once : Bool := false
+  /-- a `leptos_server::LocalResource`: every fetch first waits one `Executor::tick()` (a task that is
+  spawned when the fetch's future is first polled and fires a oneshot); `refetch()` is a signal write -/
+  isLocal : Bool := false
   deriving Repr, DecidableEq, Inhabited
 
 /-- what a spawned task other than the derived's and the effect's does -/
 inductive AwKind where
   | awaiter   -- `spawn_local(async move { let v = d.await; record(v) })`
   | reader    -- spawned by a synchronous read under a `SuspenseContext`: `ready().await; drop(handle)`
+  | tick      -- `Executor::tick()` of a local resource's fetch: `tx.send(())`
   deriving Repr, DecidableEq, Inhabited
 
 /-- a task waiting for the derived to be ready -/
@@ -116,6 +120,8 @@ structure Aw where
   done : Bool := false
   result : Option Val := none
   kind : AwKind := .awaiter
+  /-- a tick task: the number (`nf`) of the fetch it belongs to -/
+  tag : Nat := 0
   deriving Repr, DecidableEq, Inhabited
 
 structure State where
@@ -145,6 +151,13 @@ structure State where
   rc : Nat := 0
   smRc : Nat := 0
   once : Bool := false
+  -- `LocalResource`: the tick task of fetch 0 (spawned by the constructor, before the derived's own task) is
+  -- still to be polled; the tick of the current fetch has fired; the task is registered on the fetcher's
+  -- receiver (it has polled the fetch's future past the tick)
+  isLocal : Bool := false
+  tick0 : Bool := false
+  tickFired : Bool := true
+  dataReg : Bool := false
   -- the stand-in `<Suspense/>` boundary: `tasks.len()`, contexts registered in `inner.suspenses`,
   -- task ids the loop holds for the fetch in flight
   pending : Nat := 0
@@ -210,7 +223,7 @@ def hasMemo (k : EffKind) : Bool := match k with | .dm => true | .md => true | _
 
 def init (c : Cfg) : State :=
   { eff := c.eff, src := c.srcs, value := c.init, curInputs := c.srcs, viaMemo := c.viaMemo || c.res,
-    smVal := c.srcs, res := c.res, once := c.once,
+    smVal := c.srcs, res := c.res, once := c.once, isLocal := c.isLocal, tick0 := c.isLocal, tickFired := !c.isLocal,
     eDirty := hasEffect c.eff, eChan := hasEffect c.eff, eWoken := hasEffect c.eff }
 
 /-! ## channels and marks -/
@@ -265,7 +278,7 @@ def notifySubs (s : State) : State :=
 def applyResult (s : State) : State :=
   -- `drop(suspense_ids)`
   let s := { s with pending := s.pending - s.idsHeld, idsHeld := 0 }
-  let s := { s with curStatus := .done, pc := .waiting }
+  let s := { s with curStatus := .done, pc := .waiting, dataReg := false }
   if s.version = s.fetchVersion then
     notifySubs { s with value := some (fetchFn s.curInputs), manualLive := false }
   else s
@@ -284,8 +297,11 @@ def startFetch (s : State) : State :=
   let s := if s.initialFut then { s with initialFut := false }
            else
              let s := (smUpdate s).1
-             { s with nf := s.nf + 1, curInputs := inputsNow s, curStatus := .pending }
-  let s := { s with firstRun := false, loading := true, version := s.version + 1 }
+             -- a local resource: the new future's first poll (below, at `fut.await`) spawns its tick task
+             { s with nf := s.nf + 1, curInputs := inputsNow s, curStatus := .pending,
+                      tickFired := !s.isLocal,
+                      aws := if s.isLocal then s.aws ++ [{ kind := .tick, tag := s.nf + 1 }] else s.aws }
+  let s := { s with firstRun := false, loading := true, version := s.version + 1, dataReg := false }
   -- `suspense_ids = mem::take(&mut guard.suspenses).map(|sc| sc.task_id())`
   let s := { s with idsHeld := s.susp, pending := s.pending + s.susp, susp := 0,
                     coveredCur := s.readSince, readSince := false, msetDuring := false }
@@ -308,7 +324,9 @@ def dIter (s : State) : State × Bool :=
   let r := dNeedsRerun { s with chan := false }
   if r.2 || r.1.firstRun then
     let s := startFetch (if r.2 then dropInitial r.1 else r.1)
-    if s.curStatus = .ready then (applyResult s, true) else (s, false)
+    -- `fut.await`: past the tick (if any), then the fetcher's receiver
+    if s.tickFired = true ∧ s.curStatus = .ready then (applyResult s, true)
+    else ({ s with dataReg := s.tickFired }, false)
   else (r.1, true)
 
 def dLoop : Nat → State → State
@@ -322,7 +340,9 @@ def pollD (s : State) : State :=
     let s := if s.dstate = .dirty then { s with initialFut := false, curStatus := .dropped } else s
     dLoop 3 { s with pc := .waiting }
   | .waiting => dLoop 3 s
-  | .fetching => if s.curStatus = .ready then dLoop 3 (applyResult s) else s
+  | .fetching =>
+    if s.tickFired = true ∧ s.curStatus = .ready then dLoop 3 (applyResult s)
+    else { s with dataReg := s.tickFired }
 
 /-! ## memo and effect -/
 
@@ -390,8 +410,15 @@ def pollE (s : State) : State := eLoop 4 { s with eWoken := false }
 /-! ## awaiters -/
 
 def pollAw (loading : Bool) (value : Option Val) (a : Aw) : Aw :=
-  if loading then { a with woken := false, parked := true }
+  if a.kind = .tick then { a with woken := false, done := true }
+  else if loading then { a with woken := false, parked := true }
   else { a with woken := false, done := true, result := value }
+
+/-- polling a tick task that belongs to the fetch in flight fires its oneshot -/
+def tickFires (nf : Nat) (a : Option Aw) : Bool :=
+  match a with
+  | some a => decide (a.kind = .tick) && !a.done && decide (a.tag = nf)
+  | none => false
 
 /-- a reader task that resolves drops its handle: one task less in the boundary's list -/
 def handleDrop (loading : Bool) (a : Option Aw) : Nat :=
@@ -400,9 +427,18 @@ def handleDrop (loading : Bool) (a : Option Aw) : Nat :=
   | none => 0
 
 def pollA (s : State) (i : Nat) : State :=
+  let fires := tickFires s.nf s.aws[i]?
   { s with aws := modifyAt (pollAw s.loading s.value) s.aws i,
            pending := s.pending - handleDrop s.loading s.aws[i]?,
-           panicked := s.panicked || (!s.loading && s.value.isNone) }
+           tickFired := s.tickFired || fires,
+           dWoken := s.dWoken || (fires && decide (s.pc = .fetching)),
+           panicked := s.panicked || (!s.loading && s.value.isNone && !fires) }
+
+/-- the tick task of fetch 0 (spawned by the constructor): fires fetch 0's oneshot -/
+def pollT0 (s : State) : State :=
+  if s.nf = 1 then
+    { s with tick0 := false, tickFired := true, dWoken := s.dWoken || decide (s.pc = .fetching) }
+  else { s with tick0 := false }
 
 /-- `try_read_untracked` under a `SuspenseContext`: a task handle of its own plus a spawned
 `ready().await; drop(handle)`, and the context is registered for the next run of the loop
@@ -416,7 +452,7 @@ def bread (s : State) : State :=
 
 /-! ## executor -/
 
-inductive TaskId where | d | e | a (i : Nat)
+inductive TaskId where | t0 | d | e | a (i : Nat)
   deriving Repr, DecidableEq, Inhabited
 
 def readyAwsFrom : Nat → List Aw → List TaskId
@@ -424,9 +460,10 @@ def readyAwsFrom : Nat → List Aw → List TaskId
   | i, a :: as => if a.woken && !a.done then .a i :: readyAwsFrom (i + 1) as else readyAwsFrom (i + 1) as
 
 def readyList (s : State) : List TaskId :=
-  (if s.dWoken then [.d] else []) ++ (if s.eWoken then [.e] else []) ++ readyAwsFrom 0 s.aws
+  (if s.tick0 then [.t0] else []) ++ (if s.dWoken then [.d] else []) ++ (if s.eWoken then [.e] else []) ++ readyAwsFrom 0 s.aws
 
 def pollTask (s : State) : TaskId → State
+  | .t0 => pollT0 s
   | .d => pollD s
   | .e => pollE s
   | .a i => pollA s i
@@ -439,7 +476,7 @@ def pollNth (s : State) (j : Nat) : State :=
 
 def complete (s : State) (f : Nat) : State :=
   if f + 1 = s.nf ∧ s.curStatus = .pending then
-    { s with curStatus := .ready, dWoken := s.dWoken || decide (s.pc = .fetching) }
+    { s with curStatus := .ready, dWoken := s.dWoken || s.dataReg }
   else s
 
 def manualSet (s : State) (v : Val) : State :=
@@ -477,7 +514,8 @@ def expected (s : State) : Option Val := if s.manualLive then s.lastManual else 
 
 def lastSeen (s : State) : Option (Option Val) := s.eLog.getLast?.map (·.1)
 
-def awsResumed (s : State) : Bool := s.aws.all fun a => a.done && a.result.isSome
+/-- every awaiter (not: reader or tick tasks) has been resumed with a value -/
+def awsResumed (s : State) : Bool := s.aws.all fun a => a.kind != .awaiter || (a.done && a.result.isSome)
 
 /-- the boundary has read from the load in flight (and no manual write interfered) -/
 def suspCovered (s : State) : Bool :=
@@ -538,7 +576,8 @@ def dIterV (f2 : Bool) (s : State) : State × Bool :=
   let r := dNeedsRerun { s with chan := false }
   if r.2 || r.1.firstRun then
     let s := startFetch (if r.2 && f2 then dropInitial r.1 else r.1)
-    if s.curStatus = .ready then (applyResult s, true) else (s, false)
+    if s.tickFired = true ∧ s.curStatus = .ready then (applyResult s, true)
+    else ({ s with dataReg := s.tickFired }, false)
   else (r.1, true)
 
 def dLoopV (f2 : Bool) : Nat → State → State
@@ -552,11 +591,14 @@ def pollDV (f2 : Bool) (s : State) : State :=
     let s := if s.dstate = .dirty then { s with initialFut := false, curStatus := .dropped } else s
     dLoopV f2 3 { s with pc := .waiting }
   | .waiting => dLoopV f2 3 s
-  | .fetching => if s.curStatus = .ready then dLoopV f2 3 (applyResult s) else s
+  | .fetching =>
+    if s.tickFired = true ∧ s.curStatus = .ready then dLoopV f2 3 (applyResult s)
+    else { s with dataReg := s.tickFired }
 
 def pollNthV (f1 f2 : Bool) (s : State) (j : Nat) : State :=
   let r := readyList s
   match r[j % r.length]? with
+  | some .t0 => pollT0 s
   | some .d => pollDV f2 s
   | some .e => eLoopV f1 4 { s with eWoken := false }
   | some (.a i) => pollA s i
